@@ -12,7 +12,7 @@ PROPS = {
     'C04': dict(families=['layout', 'normalize', 'render'], bounded='pvf.bounded.c04', level='proof'),
     'C05': dict(families=['layout', 'normalize'], bounded='pvf.bounded.c05', level='proof'),
     'C06': dict(families=['layout', 'normalize'], bounded='pvf.bounded.c06', level='other'),
-    'C07': dict(families=[], bounded='pvf.bounded.c07', level='other'),
+    'C07': dict(families=['printers'], bounded='pvf.bounded.c07', level='other'),
     'C08': dict(families=['printers', 'strings'], bounded='pvf.bounded.c08', level='other'),
     'C09': dict(families=[], bounded='pvf.bounded.c09', level='other'),
     'C10': dict(families=['context', 'printers'], bounded='pvf.bounded.c10', level='other'),
